@@ -304,3 +304,101 @@ func tripCount(fs *ast.ForStmt, env consts) (n int64, ok bool) {
 func leanStr(s string) string {
 	return "\"" + strings.NewReplacer("\\", "\\\\", "\"", "\\\"").Replace(s) + "\""
 }
+
+// ---------------------------------------------------------------------------------------------------------------
+// helpers of the order-insensitive facts (robustness pass 2: a fact that is a SET is written in a canonical order;
+// whether it IS a set — the members do not read what the others write — is checked on the source, never assumed)
+
+// mentionsSel: does e contain the selector <base>.<field>?
+func mentionsSel(e ast.Node, base, field string) (yes bool) {
+	if e == nil {
+		return false
+	}
+	ast.Inspect(e, func(n ast.Node) bool {
+		if se, ok := n.(*ast.SelectorExpr); ok && se.Sel.Name == field {
+			if id, ok := se.X.(*ast.Ident); ok && id.Name == base {
+				yes = true
+			}
+		}
+		return true
+	})
+	return
+}
+
+// hasCallOn: does e call a method on <base> or hand <base> (or its address) to a function?
+func hasCallOn(e ast.Node, base string) (yes bool) {
+	if e == nil {
+		return false
+	}
+	ast.Inspect(e, func(n ast.Node) bool {
+		call, ok := n.(*ast.CallExpr)
+		if !ok {
+			return true
+		}
+		if se, ok := call.Fun.(*ast.SelectorExpr); ok {
+			if id, ok := se.X.(*ast.Ident); ok && id.Name == base {
+				yes = true
+			}
+		}
+		for _, a := range call.Args {
+			if u, ok := a.(*ast.UnaryExpr); ok && u.Op == token.AND {
+				a = u.X
+			}
+			if id, ok := unparen(a).(*ast.Ident); ok && id.Name == base {
+				yes = true
+			}
+		}
+		return true
+	})
+	return
+}
+
+var intTypeNames = map[string]bool{"int": true, "uint": true, "int8": true, "uint8": true, "int16": true, "uint16": true,
+	"int32": true, "uint32": true, "int64": true, "uint64": true, "byte": true, "uintptr": true}
+
+// hasCall: does e contain a call that is not a conversion to a predeclared integer type / len / cap?
+func hasCall(e ast.Node) (yes bool) {
+	if e == nil {
+		return false
+	}
+	ast.Inspect(e, func(n ast.Node) bool {
+		if call, ok := n.(*ast.CallExpr); ok {
+			if id, ok := call.Fun.(*ast.Ident); !ok || !(intTypeNames[id.Name] || id.Name == "len" || id.Name == "cap") {
+				yes = true
+			}
+		}
+		return true
+	})
+	return
+}
+
+// wideInt: integer types of at least 32 bits. A conversion to one of them is value-preserving for every value in
+// 0 .. 2^31-1 — in particular for the base weight 4*(80+VLenSize(n)), VLenSize(n) ∈ {1,3,5,9}.
+var wideInt = map[string]bool{"int": true, "uint": true, "int32": true, "uint32": true, "int64": true, "uint64": true}
+
+// arith expands e along its arithmetic structure: parentheses dropped, conversions to a wide integer type dropped
+// (NOT conversions to 8 / 16-bit types, which stay visible), calls of unexported single-`return` helpers of the same
+// package replaced by their expression (d levels). The arguments of any other call are left as written. Used for the
+// base-weight fact only, where every intermediate value is below 2^9, so that WHERE the widening conversion is
+// applied (inside, outside, in an extracted helper that returns int) is not a fact.
+func (in *inliner) arith(e ast.Expr, d int) ast.Expr {
+	switch x := e.(type) {
+	case *ast.ParenExpr:
+		return in.arith(x.X, d)
+	case *ast.BinaryExpr:
+		switch x.Op {
+		case token.ADD, token.MUL, token.SUB:
+			return &ast.BinaryExpr{X: in.arith(x.X, d), Op: x.Op, Y: in.arith(x.Y, d)}
+		}
+	case *ast.CallExpr:
+		if id, ok := x.Fun.(*ast.Ident); ok && wideInt[id.Name] && len(x.Args) == 1 {
+			return in.arith(x.Args[0], d)
+		}
+		if d > 0 {
+			if h := in.helperExpr(x); h != nil {
+				return in.arith(h, d-1)
+			}
+		}
+	}
+	return e
+}
